@@ -195,6 +195,7 @@ class HeapExec(NumExec):
         s.fresh_n = 0
         s.loop_index = {}
         s.entry = {}                       # loop ordinal -> path at loop entry
+        s.cur_k = {}                       # loop ordinal -> ghost index of the arbitrary iteration (for invariants of inner loops)
         s.writes = set()                   # heap field keys written (frame check)
         s.call_log = []
         s.witness = {}                     # skolem witnesses of the goal (DESIGN 5.6): contracts instantiate their postconditions at these
@@ -503,7 +504,12 @@ class HeapExec(NumExec):
                 rb = s.boo(res, e).b
                 res = Bool(z3.And(t, rb) if isinstance(e.op, ast.And) else z3.Or(t, rb), False, True)
             else:
-                res = s.merge(t, res, v, e) if isinstance(e.op, ast.And) else s.merge(t, v, res, e)
+                try:
+                    res = s.merge(t, res, v, e) if isinstance(e.op, ast.And) else s.merge(t, v, res, e)
+                except Unsupported:
+                    # operands of different types (`stack and stack[-1] != "("`): the value is only usable as a condition - keep its truth
+                    rb = s.truth(res, e, p)
+                    res = Bool(z3.And(t, rb) if isinstance(e.op, ast.And) else z3.Or(t, rb), False, True)
         return res
 
     def ev_UnaryOp(s, p, e):
@@ -1125,6 +1131,7 @@ class HeapExec(NumExec):
                  {"facts": spec.facts(s, p, k0, seq) if spec.facts else []})
         # arbitrary iteration (one per case of the control variable, if the sidecar splits the loop head)
         k = z3.FreshInt(f"k{lo}")
+        s.cur_k[lo] = k
         outs, breaks, after = [], [], []
         for case in (spec.cases or [None]):
             ctag = "" if case is None else "[" + ",".join(f"{a_}={b_}" for a_, b_ in case.items()) + "]"
@@ -1189,6 +1196,7 @@ class HeapExec(NumExec):
                             facts=spec.facts, havoc_heap=spec.havoc_heap, name=spec.name, ghost=spec.ghost, inst=spec.inst, cases=spec.cases)
         s.oblige(f"{label}/inv.init", p, spec.inv(s, p, z3.IntVal(0), None), {"facts": spec.facts(s, p, z3.IntVal(0), None) if spec.facts else []})
         k = z3.FreshInt(f"k{lo}")
+        s.cur_k[lo] = k
         outs, breaks, after = [], [], []
         for case in (spec.cases or [None]):
             ctag = "" if case is None else "[" + ",".join(f"{a_}={b_}" for a_, b_ in case.items()) + "]"
